@@ -35,6 +35,7 @@ func iterBoth(it Iterator, c *lmdb.Cursor, integerKey bool, f iterBothFunc) erro
 	var itKey, dbKey, dbVal []byte
 	var err error
 	prevKey := make([]byte, 0, LMDBMaxKeySize)
+	havePrevKey := false
 
 	var flag uint = lmdb.First
 	for {
@@ -50,11 +51,12 @@ func iterBoth(it Iterator, c *lmdb.Cursor, integerKey bool, f iterBothFunc) erro
 				}
 			} else {
 				// Check to ensure the keys are in insert order
-				if cmpFunc(prevKey, itKey) >= 0 {
+				if havePrevKey && cmpFunc(prevKey, itKey) >= 0 {
 					return fmt.Errorf("%s: %w", string(itKey), ErrNotSorted)
 				}
 				prevKey = prevKey[:len(itKey)]
 				copy(prevKey, itKey)
+				havePrevKey = true
 			}
 			// log.Printf("@@@ < IT %s", string(itKey))
 		}
